@@ -17,7 +17,7 @@ PROP = "C20"
 CHUNK = 50
 # runs per flavour
 RUNS = {
-    "quick": {"tsan": 24000, "asan": 8000},
+    "quick": {"tsan": 36000, "asan": 12000},
     "thorough": {"tsan": 400000, "asan": 200000, "plain": 600000},
 }
 GATE = {"quick": 600, "thorough": 3000}
